@@ -156,6 +156,23 @@ pub fn subst_equiv(a: &Canonical<Substitution<ChalkIr>>, b: &Canonical<Substitut
     and(instance_of(a, b), || instance_of(b, a))
 }
 
+/// C18 on worlds with lifetimes: the same answer up to lifetime arguments and region constraints (their rendering
+/// and order may legitimately differ); the kind of answer and the type-level substitution must agree.
+pub fn same_modulo_lifetimes(a: &Sol, b: &Sol) -> bool {
+    match (a, b) {
+        (None, None) => true,
+        (Some(Solution::Unique(_)), Some(Solution::Unique(_))) | (Some(Solution::Ambig(Guidance::Definite(_))), Some(Solution::Ambig(Guidance::Definite(_)))) => {
+            match (subst_of(a.as_ref().unwrap()), subst_of(b.as_ref().unwrap())) {
+                (Some(x), Some(y)) => subst_equiv(&x, &y) != Some(false),
+                _ => false,
+            }
+        }
+        (Some(Solution::Ambig(Guidance::Suggested(_))), Some(Solution::Ambig(Guidance::Suggested(_)))) => true,
+        (Some(Solution::Ambig(Guidance::Unknown)), Some(Solution::Ambig(Guidance::Unknown))) => true,
+        _ => false,
+    }
+}
+
 /// C04: do two answers to the same query contradict each other?  Some(reason) if they do.
 pub fn contradiction(a: &Sol, b: &Sol) -> Option<String> {
     match (a, b) {
